@@ -108,9 +108,9 @@ property for the repaired swap.  The theorem has two layers:
 * (a) – (g): for ANY op list with these three properties (the general clause; its conjuncts (a) – (f) are, verbatim,
   the definition `UnifiedDiffCorrect old new ops n header` directly above);
 * (h): END TO END, with NO `Exact` hypothesis — for the repaired swap (`textDiffOps alg true`), all three algorithms,
-  `alg = .lcs ∨ w.clock = none` (LCS under EVERY clock, Myers and Patience without a deadline: the range of
-  `C11_statement` (a)), and any two token arrays `lo ln`: `textDiffOps` RETURNS an op list `ops'` that is a valid
-  script over the (sound) token comparison, alternating and `Exact` (`C11.capture_exact_repaired_total`), hence
+  EVERY world (every clock, also Myers and Patience under a deadline that expires in the middle of the run: the range
+  of `C11_statement` (a)), and any two token arrays `lo ln`: `textDiffOps` RETURNS an op list `ops'` that is a valid
+  script over the (sound) token comparison, alternating and `Exact` (`C11.capture_exact_repaired_every_clock'`), hence
   (a) – (f) hold of `ops'` [`UnifiedDiffCorrect lo ln ops' n header`: well-formed hunks, header counts, true start
   lines, increasing non-overlapping order, strict application gives the new lines, equal inputs render empty, hunk
   shape, Display vs writer]; and when `lo ln` are the line tokens of two texts `bo bn` (`tokenize_lines`), every token
@@ -140,12 +140,9 @@ property for the repaired swap.  The theorem has two layers:
     i.e. valid UTF-8]."
 
 Not covered by this theorem: the property for the SHIPPED swap (`textDiffOps alg false`) — false: (i),
-`C05.unified_needs_exact`, C11's known finding `KF-compact-swap`; `Exact` (hence (h)) for the line diffs of Myers and
-Patience under a deadline that EXPIRES — not proved (the deadline fallback of Myers emits an Insert carrying the old
-position before its Delete, `C11.expired_deadline_raw_not_exact`; no counterexample to exactness of the captured ops
-is known, see `C11_statement`'s "Not covered"); for such op lists the general clause still applies whenever they are
-`Exact`.  Parsing of the other output modes (`Display`, non-line diffs, hint off) — their text is ambiguous or
-lossy; they are covered at the level of structured hunks by (f). -/
+`C05.unified_needs_exact`, C11's known finding `KF-compact-swap` (for shipped op lists the general clause still
+applies whenever they are `Exact`).  Parsing of the other output modes (`Display`, non-line diffs, hint off) — their
+text is ambiguous or lossy; they are covered at the level of structured hunks by (f). -/
 theorem C05_statement (old new : Array Bytes) (e : Nat → Nat → Bool) (he : Sound old new e)
     (ops : List Op) (n : Nat) (header : Option (Bytes × Bytes))
     (hw : Walk e 0 0 ops old.size new.size) (hx : Exact 0 0 ops) (ha : Alternating ops) :
@@ -187,9 +184,9 @@ theorem C05_statement (old new : Array Bytes) (e : Nat → Nat → Bool) (he : S
       [tagByte l.1] ++ (if isLossy then lossy l.2 else l.2) ++ (if nlt then [] else [10]) ++
         (if nlt && !endsWithNewline l.2 then
           (if hint then ascii "\n\\ No newline at end of file" else []) ++ [10] else [])) ∧
-    -- (h) END TO END, no `Exact` hypothesis: the repaired swap, every algorithm, LCS under every clock, Myers and
-    --     Patience without a deadline — `textDiffOps` returns ops that meet the hypotheses, hence (a) – (f) hold of them
-    (∀ (alg : Alg) (w : World), (alg = .lcs ∨ w.clock = none) → ∀ (lo ln : Array Bytes),
+    -- (h) END TO END, no `Exact` hypothesis: the repaired swap, every algorithm, every world (every clock, also an
+    --     expiring deadline) — `textDiffOps` returns ops that meet the hypotheses, hence (a) – (f) hold of them
+    (∀ (alg : Alg) (w : World) (lo ln : Array Bytes),
       ∃ ops' w', textDiffOps alg true lo ln w = .ok (ops', w') ∧
         Sound lo ln (eqB (Env.ofTokens lo ln)) ∧
         Walk (eqB (Env.ofTokens lo ln)) 0 0 ops' lo.size ln.size ∧
@@ -214,8 +211,8 @@ theorem C05_statement (old new : Array Bytes) (e : Nat → Nat → Bool) (he : S
   obtain ⟨c1, c2, c3, c4, c5, c6⟩ := unifiedDiffCorrect_of old new e he ops n header hw hx ha
   refine ⟨c1, c2, c3, c4, c5, c6, ?_, ?_, C05.unified_needs_exact⟩
   · intro nlt hint isLossy l; rfl
-  · intro alg w halg lo ln
-    obtain ⟨ops', w', hc, hw', hx', ha'⟩ := G1.textDiffOps_exact_repaired alg lo ln w halg
+  · intro alg w lo ln
+    obtain ⟨ops', w', hc, hw', hx', ha'⟩ := G1.textDiffOps_exact_repaired alg lo ln w
     have hu := unifiedDiffCorrect_of lo ln _ (sound_ofTokens lo ln) ops' n header hw' hx' ha'
     refine ⟨ops', w', hc, sound_ofTokens lo ln, hw', hx', ha', hu, ?_⟩
     rintro bo bn rfl rfl
@@ -241,12 +238,7 @@ example : Exact 0 0 [.equal 0 0 1, .replace 1 1 1 1] ∧ Alternating [.equal 0 0
 example : renderUnified 3 none [.equal 0 0 1, .replace 1 1 1 1] #[[97,10],[98,10]] #[[97,10],[99]] true true false =
     .ok (ascii "@@ -1,2 +1,2 @@\n a\n-b\n+c\n\\ No newline at end of file\n") := by rfl
 
-/-- non-vacuity of (h): its hypothesis holds for every algorithm in a world without a deadline, and for LCS in every
-world … -/
-example : ∀ alg : Alg, alg = .lcs ∨ ({} : World).clock = none := fun _ => .inr rfl
-example : ∀ w : World, Alg.lcs = .lcs ∨ w.clock = none := fun _ => .inl rfl
-
-/-- … "a\nb\n" vs "b\nb\n" — the input on which the clean-up swaps a Delete / Insert pair: the PATIENCE line diff (not
+/-- non-vacuity of (h) (it has no hypothesis on the algorithm or the world): "a\nb\n" vs "b\nb\n" — the input on which the clean-up swaps a Delete / Insert pair: the PATIENCE line diff (not
 covered before) with the repaired swap returns exact positions (the Insert carries old position 2), as do Myers, and
 LCS with an already expired deadline; the shipped swap does not (the Delete claims new position 1, true 0) … -/
 example : ∀ alg : Alg, (textDiffOps alg true (TextP.tokens [97,10,98,10] (tokenizeLinesB [97,10,98,10]))
@@ -271,5 +263,29 @@ example : renderUnified 0 none [.delete 0 1 0, .equal 1 0 1, .insert 2 1 1] #[[9
     true true false = .ok (ascii "@@ -1 +0,0 @@\n-a\n@@ -2,0 +2 @@\n+b\n") := by rfl
 example : renderUnified 0 none [.delete 0 1 1, .equal 1 0 1, .insert 1 1 1] #[[97,10],[98,10]] #[[98,10],[98,10]]
     true true false = .ok (ascii "@@ -1 +1,0 @@\n-a\n@@ -2,0 +2 @@\n+b\n") := by rfl
+
+/-- non-vacuity of (h) under an EXPIRING deadline (clock `some 0`; Myers and Patience): "b\na\n" vs "a\na\na\n" — the
+deadline fallback `delete; insert` is swapped by the clean-up, and the Insert survives as a stand-alone op: the
+repaired swap gives it the exact old position 2, the shipped swap the stale 1 … -/
+example : ∀ alg : Alg, alg ≠ .lcs →
+    (textDiffOps alg true (TextP.tokens [98,10,97,10] (tokenizeLinesB [98,10,97,10]))
+      (TextP.tokens [97,10,97,10,97,10] (tokenizeLinesB [97,10,97,10,97,10])) { clock := some 0 }).map (·.1) =
+      .ok [.delete 0 1 0, .equal 1 0 1, .insert 2 1 2] ∧
+    (textDiffOps alg false (TextP.tokens [98,10,97,10] (tokenizeLinesB [98,10,97,10]))
+      (TextP.tokens [97,10,97,10,97,10] (tokenizeLinesB [97,10,97,10,97,10])) { clock := some 0 }).map (·.1) =
+      .ok [.delete 0 1 0, .equal 1 0 1, .insert 1 1 2] := by
+  intro alg h; cases alg
+  · exact ⟨by rfl, by rfl⟩
+  · exact ⟨by rfl, by rfl⟩
+  · exact absurd rfl h
+example : Exact 0 0 [.delete 0 1 0, .equal 1 0 1, .insert 2 1 2] ∧
+    Alternating [.delete 0 1 0, .equal 1 0 1, .insert 2 1 2] ∧
+    ¬ Exact 0 0 [.delete 0 1 0, .equal 1 0 1, .insert 1 1 2] := by
+  simp [Exact, Alternating, Op.oStart, Op.nStart, Op.oLen, Op.nLen, Op.tag]
+
+/-- … and with radius 0 the exact list renders with the true start lines: `@@ -1 +0,0 @@`, `-b`, `@@ -2,0 +2,2 @@`,
+`+a`, `+a` -/
+example : renderUnified 0 none [.delete 0 1 0, .equal 1 0 1, .insert 2 1 2] #[[98,10],[97,10]]
+    #[[97,10],[97,10],[97,10]] true true false = .ok (ascii "@@ -1 +0,0 @@\n-b\n@@ -2,0 +2,2 @@\n+a\n+a\n") := by rfl
 
 end SimilarVerif.Headline
